@@ -310,11 +310,8 @@ pub fn extract_tls_signature_from_client_hello(
                         }
                         TlsExtension::SupportedVersions(versions) => {
                             // JA4: the highest non-GREASE entry of supported_versions
-                            highest_supported_version = versions
-                                .iter()
-                                .map(|v| v.0)
-                                .filter(|v| !TLS_GREASE_VALUES.contains(v))
-                                .max();
+                            let codes: Vec<u16> = versions.iter().map(|v| v.0).collect();
+                            highest_supported_version = highest_non_grease(&codes);
                         }
                         _ => {}
                     }
@@ -355,6 +352,23 @@ pub fn determine_tls_version(
     // Parse legacy version from ClientHello
     // Note: SSL 2.0 is not supported by tls-parser (too legacy/vulnerable)
     tls_version_from_code(legacy_version.0)
+}
+
+/// Highest value of a list of TLS version codes, ignoring GREASE values (RFC 8701).
+fn highest_non_grease(codes: &[u16]) -> Option<u16> {
+    let mut best: Option<u16> = None;
+    let mut i: usize = 0;
+    while i < codes.len() {
+        let code = codes[i];
+        if !TLS_GREASE_VALUES.contains(&code) {
+            match best {
+                Some(b) if b >= code => {}
+                _ => best = Some(code),
+            }
+        }
+        i = i.saturating_add(1);
+    }
+    best
 }
 
 /// Maps a TLS version code point to the JA4 version; unknown codes are reported as such ("00").
